@@ -394,6 +394,8 @@ def run(chk):
     part_cli(chk, runner)
     import c12_forms
     c12_forms.part_forms(chk)
+    import c12_res
+    c12_res.part_res(chk)
 
 
 def replay(chk, rep):
